@@ -175,3 +175,46 @@ def multipart_boundary_calls(call, quick=True):
         for ver in (1, 2, 3):
             calls.append(call('make', ['1', '2' * k], version=ver, error='L', boost_error=False))
     return calls
+
+
+def same_capacity_sessions(call, r, quick=True):
+    """Call sequences for ONE process: symbols of DIFFERENT (version, level) with the SAME number of data bits whose single segment has
+    the SAME bit length (e.g. M4-L, 1-M and 2-H hold 128 bits; an M4 numeric segment of 107 bits and a version 1 byte segment of 107
+    bits exist), created alternately a, b, a, b.  Whatever a call derives from (capacity, stream length) alone - terminator, padding,
+    fitting version, boosted level - must not be remembered for the other symbol kind.  Returns a flat list of calls (order matters)."""
+    from . import tables as T
+    groups = {}
+    for v in range(-3, 41):
+        for e in T.levels_of(v):
+            groups.setdefault(T.cap(v, e), []).append((v, e))
+    calls = []
+    modes = ('numeric', 'alphanumeric', 'byte', 'kanji')
+    for capbits, members in sorted(groups.items()):
+        if len(members) < 2 or (quick and capbits > 1100):
+            continue
+        for i in range(len(members)):
+            for j in range(i + 1, len(members)):
+                (v1, e1), (v2, e2) = members[i], members[j]
+                # all (mode, n) of both members by segment length
+                by_len = {}
+                for (v, e, tag) in ((v1, e1, 0), (v2, e2, 1)):
+                    for m in modes:
+                        nmax = T.max_chars(v, e, m)
+                        for n in range(1, nmax + 1):
+                            by_len.setdefault(T.seg_bits(v, m, n), [None, None])[tag] = (m, n)
+                common = sorted(L for L, (a, b) in by_len.items() if a and b)
+                if not common:
+                    continue
+                # the stream lengths nearest to the capacity (terminator truncated / complete), and one in the middle
+                picks = sorted(set(common[-6:] + [common[len(common) // 2]]))
+                for L in picks if not quick else picks[-4:]:
+                    (m1, n1), (m2, n2) = by_len[L]
+                    c1, c2 = content_for_mode(r, m1, n1), content_for_mode(r, m2, n2)
+                    a = call('make', c1, version=T.version_name(v1), boost_error=False, **({'error': e1} if e1 != '-' else {}))
+                    b = call('make', c2, version=T.version_name(v2), boost_error=False, **({'error': e2} if e2 != '-' else {}))
+                    calls += [a, b, a, b]
+                    # automatic version / boosting allowed: the same two contents with only the level requested
+                    a2 = call('make', c1, micro=v1 < 1, **({'error': e1} if e1 != '-' else {}))
+                    b2 = call('make', c2, micro=v2 < 1, **({'error': e2} if e2 != '-' else {}))
+                    calls += [a2, b2, a2]
+    return calls
